@@ -27,7 +27,7 @@ pub fn run(o: &Opts) -> Report {
         let has_if = takes && !s_overrides_t && rng.chance(1, 2);
         let val = |rng: &mut Rng, tag: &str| -> String { if delim && rng.chance(1, 2) { format!("{tag}1,{tag}2") } else { tag.to_string() } };
         let default_v = if takes { val(&mut rng, "dflt") } else if kind == 6 { "7".to_string() } else { if rng.chance(1, 2) { "true".into() } else { "false".into() } };
-        let env_v = if takes { val(&mut rng, "env") } else if kind == 6 { "3".to_string() } else { if rng.chance(1, 2) { "true".into() } else { "false".into() } };
+        let env_v = if takes { if rng.chance(1, 5) { String::new() } else { val(&mut rng, "env") } } else if kind == 6 { "3".to_string() } else { if rng.chance(1, 2) { "true".into() } else { "false".into() } };
         let miss_v = "miss".to_string();
         if has_default { s.default_vals = vec![default_v.clone()]; }
         if has_missing { s.default_missing = vec![miss_v.clone()]; }
@@ -53,6 +53,9 @@ pub fn run(o: &Opts) -> Report {
         }
         let mut args = others.clone();
         args.push(s.clone());
+        // args declared AFTER the subject that rely on their own plain / implicit defaults
+        args.push(ArgS { id: "z".into(), long: Some("zz".into()), action: Some("set"), default_vals: vec!["zd".into()], ..Default::default() });
+        args.push(ArgS { id: "y".into(), long: Some("yy".into()), action: Some("setTrue"), ..Default::default() });
         let mut cmd = CmdS { name: "prog".into(), args, ..Default::default() };
         cmd.settings.ignore_errors = ignore_errors;
         if !real_valid(&cmd) { rep.count("invalid_definition(skipped)"); continue; }
@@ -105,6 +108,10 @@ pub fn run(o: &Opts) -> Report {
             (Some(m), _) => {
                 if override_conflict && !ignore_errors && m.value_source("t") != Some(ValueSource::CommandLine) { rep.oracle_fail("env-value-removed-a-command-line-arg", &req, &format!("t source {:?}", m.value_source("t"))); }
                 if let Some(k) = exp_err { rep.oracle_fail(if override_conflict { "env-value-removed-a-command-line-arg" } else if s_explicit { "explicit-value-did-not-trigger-relation" } else { "default-counted-as-presence-or-requirement-ignored" }, &req, &format!("expected {k}, parse succeeded")); }
+                // the later args keep their own defaults whatever happened to the subject
+                let zv: Vec<String> = m.get_raw("z").map(|r| r.map(|v| v.to_string_lossy().to_string()).collect()).unwrap_or_default();
+                if m.value_source("z") != Some(ValueSource::DefaultValue) || zv != vec!["zd".to_string()] { rep.oracle_fail("later-arg-lost-its-default", &req, &format!("z: {:?} {:?}", m.value_source("z"), zv)); }
+                if m.value_source("y") != Some(ValueSource::DefaultValue) || m.get_raw("y").map(|r| r.count()) != Some(1) { rep.oracle_fail("later-arg-lost-its-default", &req, &format!("y: {:?}", m.value_source("y"))); }
                 let got_src = m.value_source("s");
                 let got_vals: Vec<String> = m.get_raw("s").map(|r| r.map(|v| v.to_string_lossy().to_string()).collect()).unwrap_or_default();
                 if got_src != exp_src { rep.oracle_fail("value-source-misreported", &req, &format!("got {got_src:?} expected {exp_src:?}")); }
